@@ -55,7 +55,7 @@ fn node_of(v: &Value) -> NodeSpec {
         }
         endpoints.push((1 + i as u16, clusters));
     }
-    NodeSpec { endpoints }
+    NodeSpec { endpoints, events: vec![] }
 }
 
 pub fn run(args: &[String]) -> i32 {
@@ -73,7 +73,7 @@ pub fn run(args: &[String]) -> i32 {
             kind: v["req"]["kind"].as_str().unwrap().to_string(),
             paths: v["req"]["paths"].as_array().unwrap().iter().map(|p| (comp(&p["ep"], false).map(|x| x as u16), comp(&p["cl"], true).map(|x| x as u32), comp(&p["leaf"], false).map(|x| x as u32))).collect(),
             timed: v["req"]["timed"] == true,
-            events: false,
+            ev_paths: vec![],
         };
         let o = crate::util::catch(|| run_request(&spec, &acl, pase, &req, 400));
         match o {
